@@ -106,3 +106,13 @@ func init() {
 	reg(&propCfg{ID: "C05", QuickRuns: 4000, QuickSecs: 40, ThoroughRuns: 200000, ThoroughSecs: 780, Chunk: 50, RuleNote: note + " C05 evaluates rules b*: refusal before forwarding for every protocol rule, forwarded exactly once with the fid object, user and arguments named, reply equal to what the implementation produced, authentication gate.",
 		Real: srvReal, Stub: srvStub, ProbeNames: []string{"refused-before-forward", "forwarded-read", "forwarded-write", "forwarded-create", "forwarded-open"}})
 }
+
+var ufsReal = []string{"go9p Ufs (Unix file server) on a per-run scratch tree with real os/syscall calls — instrumented copy of /repo", "go9p server framework", "go9p client library (where the workload uses it)", "host file system, Go runtime"}
+var ufsStub = []string{"transport: simulated net.Conn (segmentation by policy)", "raw 9P peers with an independent codec (where the workload needs exact requests)"}
+
+func init() {
+	reg(&propCfg{ID: "C14", QuickRuns: 1500, QuickSecs: 40, ThoroughRuns: 60000, ThoroughSecs: 780, Chunk: 20,
+		RuleNote:   "C14: 1..4 (thorough ..6) caller goroutines, each with 1..3 files of length 0, 1, iounit-1, iounit, iounit+1, 2*iounit+-1, 3*iounit+7 or random up to 5 iounits (seeded content), iounit 128..65512 further limited by the server's msize, both dialects; 2..8 operations per file drawn from Clnt.Read/Write, File.Read/Write/ReadAt/WriteAt/Readn/Written and a full sequential read, offsets at 0, EOF, EOF+1, beyond, iounit multiples -1, counts 0, 1, iounit-1..iounit+1, 2 and 3 iounits; every result is compared with a byte-slice model and, after every write, the model with os.ReadFile.",
+		Real:       ufsReal, Stub: ufsStub,
+		ProbeNames: []string{"read-at-or-past-eof", "read-ending-exactly-at-eof", "write-past-eof", "read-spanning-3+-messages", "readn-spanning-messages", "written-spanning-messages"}})
+}
